@@ -19,6 +19,7 @@ structure St where
   tasks : List String := []               -- added, not yet ended
   exited : Bool := false
   sinceTraffic : Nat := 0                 -- ms since the last op that was not an advance
+  sinceMiner : Nat := 0                   -- ms since the miner last sent something
   hadTask : Bool := false                 -- a contract task was added (connections then come and go with the tasks)
 
 def bump (l : List (String × Nat)) (p : String) (n : Nat := 1) : List (String × Nat) :=
@@ -54,7 +55,14 @@ def mon (st : St) (op : List String) (outs : List (List String)) : St × List St
     let st3 := { st2 with tasks := st2.tasks.filter fun t => !ended.contains t }
     let nowExited := sched.startsWith "exited"
     let st4 := { st3 with exited := nowExited,
-                          sinceTraffic := match op with | ["advance", ms] => st3.sinceTraffic + parseNat ms | _ => 0 }
+                          sinceTraffic := (match op with | ["advance", ms] => st3.sinceTraffic + parseNat ms | _ => 0),
+                          sinceMiner := (match op with
+                            | ["advance", ms] => st3.sinceMiner + parseNat ms + 1
+                            | "msubmit" :: _ => 0
+                            | ["start"] => 0
+                            | "startfail" :: _ => 0
+                            | _ => st3.sinceMiner + 1) }
+    let failed := outs.any (fun o => o.take 2 = ["factory", "dial"] && o.getLast? == some "refused")
     -- clauses
     let c1 := if runs ≤ 1 ∧ pipes ≤ 1 then [] else [s!"C13 more than one relay loop: {runs} Proxy.Run and {pipes} Pipe.Run goroutines"]
     let c2 := if live.length ≤ st.maxCached then [] else
@@ -69,12 +77,12 @@ def mon (st : St) (op : List String) (outs : List (List String)) : St × List St
       | ["factory", "dial", _, "->", pc] => some pc | _ => none
     let closedNow := outs.filterMap fun o => match o with | ["topool", pc, "closed"] => some pc | _ => none
     let churn := dialled.filter fun pc => closedNow.contains pc
-    let failed := outs.any (fun o => o.take 2 = ["session", "dest-err"])
+    let failed := outs.any (fun o => o.take 2 = ["factory", "dial"] && o.getLast? == some "refused")
     let isPoolClose : Bool := match op with | "poolclose" :: _ => true | _ => false
     let c5 := if churn.isEmpty || nowExited || failed || isPoolClose || st1.hadTask then [] else
       [s!"C06 replacement connections keep being opened: {churn} was connected and closed again at once although the session goes on"]
     let c6 := match op with
-      | "task" :: _ => if outs.any (fun o => o.take 2 = ["session", "dest-err"]) ∧ nowExited ∧ !st.exited then
+      | "task" :: _ => if failed ∧ nowExited ∧ !st.exited then
           ["C06 after a failed change of destination the miner was not kept on its pool: the session ended"] else []
       | _ => []
     -- a pool connection closed by the proxy needs a reason
@@ -85,11 +93,17 @@ def mon (st : St) (op : List String) (outs : List (List String)) : St × List St
       | "poolclose" :: _ => true
       | ["minerclose"] => true
       | ["shutdown"] => true
-      | _ => nowExited || switched || outs.any (fun o => o.take 2 = ["session", "dest-err"]) ||
+      | _ => nowExited || switched || failed ||
              decide (st4.sinceTraffic + 1000 ≥ st.idleMs) || !newDials.isEmpty
     let c7 := if closes.isEmpty || explained || st1.hadTask then [] else
       [s!"C06 the proxy closed the healthy pool connection {closes} without a failure, a switch, idleness or the end of the session"]
-    (st4, c1 ++ c2 ++ c3 ++ c4 ++ c5 ++ c6 ++ c7)
+    let c8 := match op with
+      | "startfail" :: _ => if nowExited ∧ live = [] ∧ listed = "0" then [] else
+          [s!"C06 a pool failure during the first handshake left the miner hanging: live={liveTxt} sched={sched} listed={listed}"]
+      | _ => []
+    let c9 := if !nowExited ∧ st4.sinceMiner > st.idleMs + 2000 then
+      [s!"C13 the miner sent nothing for {st4.sinceMiner} ms and its connection was not closed (configured idle time {st.idleMs} ms)"] else []
+    (st4, c1 ++ c2 ++ c3 ++ c4 ++ c5 ++ c6 ++ c7 ++ c8 ++ c9)
 
 def monitor : Monitor := { σ := St, init := {}, step := mon }
 
